@@ -13,6 +13,7 @@ from ..seams import World
 from ..tape import Tape
 
 PREFIX = "emu_mps_save_"
+REFERENCE_BUDGET = 1500  # progress() calls of the uninterrupted reference run
 
 
 # --------------------------------------------------------------------------------------
@@ -173,7 +174,9 @@ def reference_run(world: World, case: dict, seeds: tuple) -> M.Outcome:
         M.mps_run_fn(case["seq"], case["scn"], case["cfg"], autosave_dt=None),
         seeds=seeds,
         perm_chooser=perm_chooser(case),
-        budget=case.get("budget"),
+        # cost guard, not a liveness claim: scenarios whose uninterrupted run needs more units of work than this
+        # (e.g. DMRG at bond dimension 2, which takes hundreds of sweeps per step) are skipped as too expensive
+        budget=case.get("budget") or REFERENCE_BUDGET,
     )
 
 
